@@ -43,3 +43,22 @@ package jobsync
 //@ func NewLifecycle [C04]
 //@   layers safety contract
 //@   ensures lifecycle != nil && lifecycle.ctx != nil && len(lifecycle.errors) == 0
+
+// ---- C08: the pool hands out at most max slots ----
+//@ func NewPool [C08]
+//@   layers safety contract
+//@   modifies $none
+//@   ensures result != nil && result.max == max && result.counter == 0
+// Add reserves min(amount, free) slots; Done gives one back
+//@ func (*Pool).Add [C08]
+//@   layers safety contract
+//@   requires p != nil
+//@   modifies jobsync.Pool.counter
+//@   ensures amount >= 0 && old(0 <= p.counter && p.counter <= p.max) ==> 0 <= result && result <= amount && result <= old(p.max - p.counter)
+//@   ensures amount >= 0 && old(0 <= p.counter && p.counter <= p.max) ==> result == amount || result == old(p.max - p.counter)
+//@   ensures p.counter == old(p.counter) + result && p.max == old(p.max)
+//@ func (*Pool).Done [C08]
+//@   layers safety contract
+//@   requires p != nil
+//@   modifies jobsync.Pool.counter
+//@   ensures p.counter == old(p.counter) - 1 && p.max == old(p.max)
